@@ -243,7 +243,9 @@ def r4(ctx):
     f = c.methods["update_source_network"]
     m = c.module
     old, new = f.args.args[1].arg, f.args.args[2].arg
-    mv = [s for s in walk_shallow(f) if isinstance(s, ast.Assign) and any(norm(t) == "self.routers[%s]" % new for t in s.targets) and norm(s.value) == "self.routers.pop(%s)" % old]
+    from .common import subst_locals
+    mv = [s for s in walk_shallow(f) if isinstance(s, ast.Assign) and any(norm(t) == "self.routers[%s]" % new for t in s.targets)
+          and norm(subst_locals(f, s.value)) == "self.routers.pop(%s)" % old]
     ctx.check("update_source_network:moves-routers", len(mv) == 1, where(m, f), "the routers of the old network number must be moved to the new one")
     def key_of(sub):
         if isinstance(sub, ast.Subscript) and norm(sub.value) == "self.path_info" and isinstance(sub.slice, ast.Tuple) and len(sub.slice.elts) == 2:
